@@ -262,6 +262,41 @@ func c15Source(r *fw.Rec, s corpus.Source) {
 			}
 		}
 	}
+	// growing one user's operand list (`call.Args = append(call.Args, v)`) must not
+	// write into a slot of another user: the spare capacity of every operand-holding
+	// slice is checked against the slots handed out above
+	for _, f := range m.Funcs {
+		for _, b := range f.Blocks {
+			users := make([]interface{}, 0, len(b.Insts)+1)
+			for _, inst := range b.Insts {
+				users = append(users, inst)
+			}
+			if b.Term != nil {
+				users = append(users, b.Term)
+			}
+			for _, u := range users {
+				rv := reflect.ValueOf(u)
+				if rv.Kind() != reflect.Ptr || rv.Elem().Kind() != reflect.Struct {
+					continue
+				}
+				st := rv.Elem()
+				for i := 0; i < st.NumField(); i++ {
+					fv := st.Field(i)
+					if fv.Kind() != reflect.Slice || fv.Type().Elem() != valueIface || fv.Cap() == fv.Len() || st.Type().Field(i).PkgPath != "" {
+						continue
+					}
+					full := fv.Slice3(0, fv.Cap(), fv.Cap())
+					for k := fv.Len(); k < fv.Cap(); k++ {
+						if who, taken := owner[full.Index(k).Addr().Interface().(*value.Value)]; taken {
+							r.Violate(fw.Violation{Key: "append-reaches-other-user/" + kindOf(u), Input: text,
+								What: fmt.Sprintf("the operand list %s of a %s has spare capacity that is an operand slot of `%s`: appending to the list overwrites that operand", st.Type().Field(i).Name, kindOf(u), who)})
+							return
+						}
+					}
+				}
+			}
+		}
+	}
 	r.TallyN("slots", "distinct-slots-across-users", len(owner))
 	for _, f := range m.Funcs {
 		if len(f.Blocks) == 0 {
@@ -628,6 +663,11 @@ func c15Succs(r *fw.Rec, id, text string, f *ir.Func, term ir.Terminator) {
 	var want []*ir.Block
 	for _, p := range valueSlots(term) {
 		if b, ok := (*p).(*ir.Block); ok {
+			// a block passed as an argument (`invoke void @g(label %bb) ...`) or in an
+			// operand bundle is an operand, not a successor
+			if n := slotName(term, p); strings.HasPrefix(n, "Args") || strings.HasPrefix(n, "OperandBundles") {
+				continue
+			}
 			want = append(want, b)
 		}
 	}
@@ -654,6 +694,9 @@ func c15Succs(r *fw.Rec, id, text string, f *ir.Func, term ir.Terminator) {
 		old, ok := (*p).(*ir.Block)
 		if !ok {
 			continue
+		}
+		if nm := slotName(term, p); strings.HasPrefix(nm, "Args") || strings.HasPrefix(nm, "OperandBundles") {
+			continue // a block passed as an argument is not a successor
 		}
 		nb := ir.NewBlock("verif.retarget")
 		nb.Parent = f
